@@ -64,6 +64,7 @@ func runOp(op Op) (result any, panicMsg string) {
 		msg string
 	}
 	ch := make(chan outcome, 1)
+	limit := timeoutOf(op, name) // read before the executor starts writing into the op
 	go func() {
 		defer func() {
 			if r := recover(); r != nil {
@@ -75,7 +76,7 @@ func runOp(op Op) (result any, panicMsg string) {
 	select {
 	case o := <-ch:
 		return o.v, o.msg
-	case <-time.After(timeoutOf(op, name)):
+	case <-time.After(limit):
 		/* report the timeout, but let the runaway call finish (bounded) before the next op
 		   starts, so that leaked goroutines do not pile up and slow everything else down */
 		select {
